@@ -701,6 +701,65 @@ def run(repo, rep, tier):
     rep.ob("C15.R6", acs, "a background read back as a list of colours (gradient) is acceptable to the cell-style writer", ok,
            "" if ok else "cell_bg_color returns a list for gradient fills, Style.from_storage memoises it on the cell, and add_cell_style/update_cell_styles read .r/.g/.b: reading the style of a gradient-filled cell makes the next save raise AttributeError",
            key="C15.R6@gradient-bg-color")
+    # a table made by add_table owns its stroke sidecar: a fresh StrokeSidecarArchive is created and the new table model refers to
+    # it, either by set_reference afterwards or by a key of the creating dict that the copied references (**refs) cannot override
+    adt = repo.func("model.py", "_NumbersModel.add_table")
+    fresh = [n for n in body_walk(adt) if isinstance(n, ast.Assign) and isinstance(n.value, ast.Call) and "StrokeSidecarArchive" in U(n.value)]
+    sid = None
+    if fresh and isinstance(fresh[0].targets[0], ast.Tuple) and fresh[0].targets[0].elts:
+        sid = U(fresh[0].targets[0].elts[0])
+    linked = False
+    why_sc = "no fresh StrokeSidecarArchive is created for the new table" if sid is None else ""
+    if sid is not None:
+        for c in body_walk(adt):
+            if isinstance(c, ast.Call) and U(c.func) == "self.set_reference" and len(c.args) == 2 and U(c.args[0]).endswith(".stroke_sidecar") and U(c.args[1]) == sid \
+                    and c.lineno > fresh[0].lineno:
+                linked = True
+        for d in [n for n in body_walk(adt) if isinstance(n, ast.Dict)]:
+            for i, (k, v) in enumerate(zip(d.keys, d.values)):
+                if k is not None and try_const(k, default=None) == "stroke_sidecar" and sid in U(v):
+                    later_splat = any(k2 is None for k2 in d.keys[i + 1:])
+                    if later_splat:
+                        why_sc = "the new sidecar is named in the creating dict before `**` of the references copied from the source table, which name the source's sidecar: the copy wins"
+                    else:
+                        linked = True
+        if not linked and not why_sc:
+            why_sc = "the fresh sidecar is never linked to the new table model"
+    rep.ob("C15.R4", fresh[0] if fresh else adt, "add_table gives the new table a stroke sidecar of its own", linked and not why_sc,
+           why_sc + (": both tables then share one set of strokes (after reload each shows the union, and a stroke set in one overwrites the other's)" if why_sc else ""),
+           key="C15.R4@add_table:own-sidecar")
+
+    # a package member is stored under its path inside the package: what the loader strips from the file path is everything
+    # up to the package folder being read, also when a folder above it is itself named *.numbers (the pattern is exercised as
+    # data with the re module)
+    import re as _re
+    rp = repo.func("iwork.py", "IWork._read_objects_from_package")
+    subs = [c for c in body_walk(rp) if isinstance(c, ast.Call) and U(c.func) == "re.sub" and len(c.args) >= 3 and try_const(c.args[1], default=None) == ""]
+    why_pk = ""
+    by_path = [c for c in body_walk(rp) if isinstance(c, ast.Call) and isinstance(c.func, ast.Attribute) and c.func.attr == "relative_to"]
+    if not subs and by_path:
+        # the member path computed from the package root itself (Path.relative_to): nothing to exercise
+        samples = ()
+        subs = [by_path[0]]
+        rx_, cnt_ = None, 0
+    elif len(subs) != 1 or not isinstance(try_const(subs[0].args[0], default=None), str):
+        raise AnalysisError("_read_objects_from_package: the call that strips the package prefix from a member path was not found")
+    else:
+        samples = (("/tmp/a/doc.numbers/Data/img-1.png", "Data/img-1.png"), ("doc.numbers/Index/Tables/Tile.iwa", "Index/Tables/Tile.iwa"),
+                   ("/srv/old.numbers/new/doc.numbers/Data/img-1.png", "Data/img-1.png"), ("/srv/a.numbers/b.numbers/Index/Document.iwa", "Index/Document.iwa"))
+        try:
+            rx_ = _re.compile(try_const(subs[0].args[0]))
+        except _re.error as e:
+            raise AnalysisError(f"_read_objects_from_package: pattern does not compile ({e})") from e
+        cnt_ = next((try_const(kw.value, default=0) for kw in subs[0].keywords if kw.arg == "count"), try_const(subs[0].args[3], default=0) if len(subs[0].args) > 3 else 0)
+    for path_, want_ in samples:
+        got_ = rx_.sub("", path_, count=cnt_ or 0)
+        if got_ != want_:
+            why_pk = why_pk or f"`{path_}` is stored as `{got_}` instead of `{want_}`"
+    rep.ob("C15.R2", subs[0], "package members are stored under their path inside the package being read", not why_pk,
+           why_pk + (": a background image of a document saved as a package below another *.numbers folder is registered under the wrong name and reads back as None" if why_pk else ""),
+           key="C15.R2@package:member-path")
+
     rep.floor("C15.R1", 14)
     rep.floor("C15.R2", 50)
     rep.floor("C15.R3", 9)
